@@ -225,25 +225,34 @@ Proof. destruct a, b; simpl; congruence. Qed.
 
 (* the observation the model itself produces for the input of a case *)
 Definition model_case (k : case_C17) : case_C17 :=
-  let '(r1, (w1, _)) := create_linked_view (k_hint k) (k_pre k, 0%N) (k_call k) in
-  let '(r2, (w2, n2)) := create_linked_view (k_hint2 k) (w1, 0%N) (k_call k) in
-  let '(r3, (w3, _)) := create_linked_view (k_hint3 k) (w2, 0%N) (with_prefix (k_call k) (k_sprefix k)) in
-  {| k_pre := k_pre k; k_call := k_call k; k_hint := k_hint k; k_res := r1; k_post := w1;
+  let '(r1, (w1, _)) := create_linked_view (k_hint k) (k_pre k, 0%N) (fill_call k) in
+  let '(r2, (w2, n2)) := create_linked_view (k_hint2 k) (w1, 0%N) (fill_call k) in
+  let '(r3, (w3, _)) := create_linked_view (k_hint3 k) (w2, 0%N) (with_prefix (fill_call k) (k_sprefix k)) in
+  {| k_xjobs := k_xjobs k; k_xoracle := k_xoracle k; k_spec := k_spec k;
+     k_pre := k_pre k; k_call := k_call k; k_hint := k_hint k; k_res := r1; k_post := w1;
      k_hint2 := k_hint2 k; k_res2 := res_exn r2; k_ops2 := n2; k_post2 := w2;
      k_sprefix := k_sprefix k; k_hint3 := k_hint3 k; k_res3 := res_exn r3; k_post3 := w3 |}.
+
+Lemma fill_call_inputs : forall k k',
+  k_xjobs k' = k_xjobs k -> k_xoracle k' = k_xoracle k -> k_spec k' = k_spec k -> k_call k' = k_call k ->
+  fill_call k' = fill_call k.
+Proof. intros k k' H1 H2 H3 H4. unfold fill_call, derive_pf. rewrite H1, H2, H3, H4. reflexivity. Qed.
 
 Lemma model_agreement_transfers : forall k,
   mismatch_C17 k = false -> holds_C17 k = holds_C17 (model_case k).
 Proof.
   intros k H. unfold mismatch_C17 in H. unfold model_case.
-  destruct (create_linked_view (k_hint k) (k_pre k, 0%N) (k_call k)) as [r1 [w1 n1]] eqn:E1.
-  destruct (create_linked_view (k_hint2 k) (k_post k, 0%N) (k_call k)) as [r2 [w2 n2]] eqn:E2.
-  destruct (create_linked_view (k_hint3 k) (k_post2 k, 0%N) (with_prefix (k_call k) (k_sprefix k))) as [r3 [w3 n3]] eqn:E3.
+  destruct (create_linked_view (k_hint k) (k_pre k, 0%N) (fill_call k)) as [r1 [w1 n1]] eqn:E1.
+  destruct (create_linked_view (k_hint2 k) (k_post k, 0%N) (fill_call k)) as [r2 [w2 n2]] eqn:E2.
+  destruct (create_linked_view (k_hint3 k) (k_post2 k, 0%N) (with_prefix (fill_call k) (k_sprefix k))) as [r3 [w3 n3]] eqn:E3.
   apply negb_false_iff in H. rewrite !andb_true_iff in H.
   destruct H as [[[[[[H1 H2] H3] H4] H5] H6] H7].
   apply node_eqb_eq in H2, H4, H7. apply oexn_eqb_eq in H3, H6. apply res_eqb_is_ok in H1.
   apply Bool.eqb_prop in H5.
-  rewrite H2, E2. rewrite H4, E3. unfold holds_C17. simpl.
+  rewrite H2, E2. rewrite H4, E3. unfold holds_C17.
+  match goal with |- _ = holds_core _ (fill_call ?k') _ _ _ _ _ _ _ _ =>
+    rewrite (fill_call_inputs k k') by reflexivity end.
+  simpl.
   rewrite <- H1, <- H3, <- H5, <- H6, <- H7, <- H4, <- H2. reflexivity.
 Qed.
 
